@@ -129,6 +129,7 @@ impl State {
         match kind {
             "parse" => self.run_parse(case),
             "eval" => self.run_eval(case),
+            "history" => self.run_history(case),
             _ => {
                 self.count("unknown_kind");
             },
@@ -378,6 +379,142 @@ impl State {
                 }
             }
         }
+    }
+
+    // ------------------------------------------------------------------------------------------
+    // kind "history": a sequence of context operations on two slots (MC_Ctx.tla); the return value
+    // of every step and the projection of both slots after the last step are compared
+    // ------------------------------------------------------------------------------------------
+    fn run_history(&mut self, case: &J) {
+        let check = case["check"].as_str().unwrap_or("history").to_string();
+        let steps = case["steps"].as_array().cloned().unwrap_or_default();
+        self.count("history");
+        if steps.len() >= 2 {
+            self.distinct("history_len2", case);
+        }
+        let log: Log = Default::default();
+        let mut slots: Vec<Option<HashMapContext<DefaultNumericTypes>>> = vec![Some(HashMapContext::new()), None];
+        let mut probe: Vec<String> = vec!["never_defined".into()];
+        let mut trail: Vec<String> = Vec::new();
+        for (i, step) in steps.iter().enumerate() {
+            let call = &step["call"];
+            let op = call["op"].as_str().unwrap_or("");
+            let s = call["slot"].as_u64().unwrap_or(0) as usize;
+            let n = text_of(&call["n"]);
+            let is_last = i + 1 == steps.len();
+            if is_last {
+                self.count(&format!("history_last_{op}"));
+            }
+            let mut none = false;
+            let r: Result<Result<V, E>, String> = guard(|| {
+                if op == "clone" {
+                    let c = slots[s].clone();
+                    slots[1 - s] = c;
+                    return Ok(Value::Empty);
+                }
+                let c = match slots[s].as_mut() {
+                    Some(c) => c,
+                    None => return Err(EvalexprError::CustomMessage("harness: absent slot".into())),
+                };
+                match op {
+                    "set_value" => c.set_value(n.clone(), dec_value(&call["v"]).unwrap_or(Value::Empty)).map(|_| Value::Empty),
+                    "eval" => {
+                        let src = call["toks"].as_array().map(|a| a.iter().map(text_of).collect::<Vec<_>>().join(" ")).unwrap_or_default();
+                        if call["mode"].as_str() == Some("imm") {
+                            eval_with_context(&src, &*c)
+                        } else {
+                            eval_with_context_mut(&src, c)
+                        }
+                    },
+                    "get_value" => match c.get_value(&n) {
+                        Some(v) => Ok(v.clone()),
+                        None => {
+                            none = true;
+                            Err(EvalexprError::CustomMessage("None".into()))
+                        },
+                    },
+                    "clear_variables" => {
+                        c.clear_variables();
+                        Ok(Value::Empty)
+                    },
+                    "clear_functions" => {
+                        c.clear_functions();
+                        Ok(Value::Empty)
+                    },
+                    "clear" => {
+                        c.clear();
+                        Ok(Value::Empty)
+                    },
+                    "set_function" => c
+                        .set_function(n.clone(), make_function(&n, call["b"].as_str().unwrap_or("id"), dec_value(&call["bv"]), &log))
+                        .map(|_| Value::Empty),
+                    "set_builtins" => c.set_builtin_functions_disabled(call["d"].as_bool().unwrap_or(false)).map(|_| Value::Empty),
+                    other => Err(EvalexprError::CustomMessage(format!("harness: unknown op {other}"))),
+                }
+            });
+            if op == "set_function" && !probe.contains(&n) {
+                probe.push(n.clone());
+            }
+            let shown = match op {
+                "eval" => format!("[{s}] eval {:?}", call["toks"].as_array().map(|a| a.iter().map(text_of).collect::<Vec<_>>().join(" ")).unwrap_or_default()),
+                "set_value" => format!("[{s}] set_value({n}, {:?})", dec_value(&call["v"])),
+                _ => format!("[{s}] {op}({n})"),
+            };
+            trail.push(shown);
+            let r = match r {
+                Ok(r) => r,
+                Err(p) => {
+                    self.fail("panic", format!("history {trail:?} panicked at {p}"), case, json!({"panic": p}));
+                    return;
+                },
+            };
+            let pat = &step["obs"];
+            let ok = if pat["p"] == "err" && pat["e"]["e"] == "None" { none } else { !none && matches(pat, &r, true) };
+            if !ok {
+                self.fail(
+                    &check,
+                    format!("history {trail:?}: step {} returned {}, the specification says {}", i + 1,
+                            enc_obs(&r)["text"].as_str().unwrap_or(""), brief_patterns(&[pat.clone()])),
+                    case,
+                    enc_obs(&r),
+                );
+                return;
+            }
+        }
+        // projection of both slots after the last step
+        let post = case["post"].as_array().cloned().unwrap_or_default();
+        let mut shown = Vec::new();
+        for (s, want) in post.iter().enumerate() {
+            let absent = want["kind"] == "Absent";
+            match (&slots[s], absent) {
+                (None, true) => {},
+                (Some(c), false) => match guard(|| project_hashmap(c, &probe, &log)) {
+                    Ok(Ok(got)) => {
+                        let w = project_spec(want);
+                        // the specification lists the functions it knows; the probe list may be longer
+                        if !same_projection(&got, &w) {
+                            self.fail(&check, format!("history {trail:?}: slot {s} is {got}, the specification says {w}"), case,
+                                      json!({"slot": s, "post": got}));
+                            return;
+                        }
+                        shown.push(got);
+                    },
+                    Ok(Err(e)) => {
+                        self.fail(&check, format!("history {trail:?}: slot {s}: inconsistent listing: {e}"), case, json!(null));
+                        return;
+                    },
+                    Err(p) => {
+                        self.fail("panic", format!("history {trail:?}: projection panicked at {p}"), case, json!({"panic": p}));
+                        return;
+                    },
+                },
+                _ => {
+                    self.fail(&check, format!("history {trail:?}: slot {s} presence differs"), case, json!(null));
+                    return;
+                },
+            }
+        }
+        self.sample("history", json!({"steps": trail, "slots_after": shown}));
     }
 
     /// C14: the ten identifier iterators against the occurrence list of the specification.
